@@ -193,6 +193,7 @@ def shard_large(spec, R):
     n = spec["pixels"]
     ny = 1000
     nx = n // ny
+    nt = spec.get("steps", 1)  # several time steps in one call: size- or shape-dependent code paths (threading, tiling)
     for pattern in spec["patterns"]:
         if pattern == "alt":
             px = (1000 + (np.arange(ny * nx) % 2)).astype(np.int16).reshape(1, ny, nx)
@@ -200,12 +201,15 @@ def shard_large(spec, R):
             px = rng.integers(2000, 9001, (1, ny, nx)).astype(np.int16)
         else:  # float32 data
             px = rng.uniform(0.2, 0.9, (1, ny, nx)).astype(np.float32)
+        if nt > 1:
+            px = np.concatenate([np.roll(px, 7 * k, axis=2) + (k if px.dtype.kind == "i" else 0) for k in range(nt)], axis=0)
+            R.count("large_multi_step_rasters")
         zones = np.zeros((ny, nx), dtype=np.int16)
         zones[:2, :] = 1  # a small second zone, and a third left empty
         nodata = -9999
-        px[0, 5, ::7] = nodata
+        px[:, 5, ::7] = nodata
         for odt in (np.float32, np.float64):
-            case = {"generator": {"pixels": n, "pattern": pattern, "seed": spec["seed"], "sub": spec["sub"]}, "out_dtype": np.dtype(odt).name}
+            case = {"generator": {"pixels": n, "pattern": pattern, "seed": spec["seed"], "sub": spec["sub"], "steps": nt}, "out_dtype": np.dtype(odt).name}
             R.evaluation()
             R.case(True, "large", n, pattern, np.dtype(odt).name, spec["seed"])
             R.count(f"large_zone_{n}")
@@ -219,6 +223,8 @@ def plan(tier, seed):
     specs = [{"kind": "small", "sub": i, "cases": 120 if q else 1500, "budget_s": 100 if q else 1200} for i in range(8 if q else 16)]
     for n in (100_000, 1_000_000, 17_000_000):
         specs.append({"kind": "large", "sub": 0, "pixels": n, "patterns": ["alt", "rand", "float"]})
+    specs.append({"kind": "large", "sub": 3, "pixels": 1_000_000, "steps": 4, "patterns": ["rand", "float"]})
+    specs.append({"kind": "large", "sub": 4, "pixels": 300_000, "steps": 6, "patterns": ["alt"]})
     if not q:
         specs.append({"kind": "large", "sub": 1, "pixels": 25_000_000, "patterns": ["alt", "rand", "float"]})
         specs.append({"kind": "large", "sub": 2, "pixels": 17_000_000, "patterns": ["rand"]})
@@ -232,7 +238,7 @@ def run_shard(spec, R):
 def finalize(agg, tier):
     c = agg["counters"]
     out = []
-    for k in ("zone_time_cells", "empty_zone_cells", "permutation_pairs", "accessor_calls", "accessor_dask_calls", "accessor_with_nan", "large_zone_100000", "large_zone_1000000", "large_zone_17000000"):
+    for k in ("zone_time_cells", "empty_zone_cells", "permutation_pairs", "accessor_calls", "accessor_dask_calls", "accessor_with_nan", "large_multi_step_rasters", "large_zone_100000", "large_zone_1000000", "large_zone_17000000"):
         if c.get(k, 0) == 0:
             out.append(f"monitor/class {k} never observed")
     return out
@@ -242,7 +248,7 @@ def replay(case, R):
     f = do_mean()
     if "generator" in case:
         g = case["generator"]
-        shard_large({"seed": int(g["seed"]), "sub": int(g["sub"]), "pixels": int(g["pixels"]), "patterns": [g["pattern"]]}, R)
+        shard_large({"seed": int(g["seed"]), "sub": int(g["sub"]), "pixels": int(g["pixels"]), "patterns": [g["pattern"]], "steps": int(g.get("steps", 1))}, R)
         return
     if case.get("truncated"):
         R.inconclusive_because("raster truncated in the witness: re-run the seeded shard")
